@@ -23,23 +23,27 @@ Definition validator_ok (p : params) (ents : list entity) (epoch : N) (nodes : l
     (p_bypass p = true \/ stake_ok ents (n_ent n) = true) /\
     node_power p ents n = Some pw /\ 1 <= pw.
 
-(* an entity that runs at least one eligible validator node *)
-Definition eligible_ent (p : params) (ents : list entity) (epoch : N) (nodes : list node) (e : N) : Prop :=
-  exists n, In n nodes /\ live epoch n = true /\ is_vcand p ents n = true /\ n_ent n = e.
+(* an entity that runs at least one eligible validator node; [extra] is the
+   additional per-node condition of the shuffle in use (entropy: none; VRF
+   sortition: the node submitted a proof) *)
+Definition eligible_ent (p : params) (ents : list entity) (epoch : N) (nodes : list node)
+  (extra : node -> bool) (e : N) : Prop :=
+  exists n, In n nodes /\ live epoch n = true /\ is_vcand p ents n = true /\ extra n = true /\ n_ent n = e.
+Definition no_extra : node -> bool := fun _ => true.
 Definition represented (vals : vmap) (e : N) : Prop := exists kv, In kv vals /\ ent_of kv = e.
 
 Definition by_descending_stake (p : params) (ents : list entity) (epoch : N) (nodes : list node)
-  (vals : vmap) : Prop :=
-  forall e e', eligible_ent p ents epoch nodes e -> ~ represented vals e -> represented vals e' ->
+  (extra : node -> bool) (vals : vmap) : Prop :=
+  forall e e', eligible_ent p ents epoch nodes extra e -> ~ represented vals e -> represented vals e' ->
                escrow_of ents e <= escrow_of ents e'.
 
 Definition election_ok (p : params) (ents : list entity) (epoch : N) (nodes : list node)
-  (vals : vmap) : Prop :=
+  (extra : node -> bool) (vals : vmap) : Prop :=
   Forall (validator_ok p ents epoch nodes) vals /\
   len vals <= N.max 1 (p_max p) /\
   (forall e, count_ent e vals <= p_per p) /\
   p_min p <= len vals /\ 1 <= len vals /\
-  (p_bypass p = false -> by_descending_stake p ents epoch nodes vals).
+  (p_bypass p = false -> by_descending_stake p ents epoch nodes extra vals).
 
 (* ---------- boolean checker ---------- *)
 Definition validator_ok_b (p : params) (ents : list entity) (epoch : N) (nodes : list node)
@@ -53,26 +57,15 @@ Definition validator_ok_b (p : params) (ents : list entity) (epoch : N) (nodes :
 Definition represented_b (vals : vmap) (e : N) : bool := existsb (fun kv => ent_of kv =? e) vals.
 
 Definition election_ok_b (p : params) (ents : list entity) (epoch : N) (nodes : list node)
-  (vals : vmap) : bool :=
+  (extra : node -> bool) (vals : vmap) : bool :=
   forallb (validator_ok_b p ents epoch nodes) vals &&
   (len vals <=? N.max 1 (p_max p)) &&
   forallb (fun kv => count_ent (ent_of kv) vals <=? p_per p) vals &&
   (p_min p <=? len vals) && (1 <=? len vals) &&
   (p_bypass p ||
-   forallb (fun n => negb (live epoch n && is_vcand p ents n) || represented_b vals (n_ent n) ||
+   forallb (fun n => negb (live epoch n && is_vcand p ents n && extra n) || represented_b vals (n_ent n) ||
                      forallb (fun kv => escrow_of ents (n_ent n) <=? escrow_of ents (ent_of kv)) vals)
            nodes).
-
-(* the implementation's output for one epoch is acceptable: the validator set
-   passes the checker and the emitted updates turn the engine's set into it *)
-Definition pmap_eqb (a b : pmap) : bool := list_eqb pair_eqb (sort_by fst a) (sort_by fst b).
-Definition impl_ok_b (i : epoch_in) (o : epoch_out) : bool :=
-  match o with
-  | EErr _ => true
-  | EOk vals ups _ =>
-      election_ok_b (i_params i) (sort_by e_addr (i_ents i)) (i_epoch i) (i_nodes i) vals &&
-      pmap_eqb (apply_updates (i_current i) ups) (powers_of vals)
-  end.
 
 (* ---------- committees ---------- *)
 Definition count_node_ent (e : N) (l : list node) : N := len (filter (fun n => n_ent n =? e) l).
@@ -80,17 +73,109 @@ Definition count_node_ent (e : N) (l : list node) : N := len (filter (fun n => n
 (* the members elected for one role: exact size, every member eligible,
    per-entity limit, pool not below MinPoolSize *)
 Definition role_ok (p : params) (ents : list entity) (vents : list N) (epoch : N) (rt : runtime)
-  (cs : constr) (wanted : N) (cnodes : list node) (el : list node) : Prop :=
+  (src : shuffle_src) (cs : constr) (wanted : N) (cnodes : list node) (el : list node) : Prop :=
   len el = wanted /\
-  Forall (fun n => In n cnodes /\ role_eligible p ents vents epoch rt cs n = true) el /\
+  Forall (fun n => In n cnodes /\ role_eligible p ents vents epoch rt (src_haspi src) cs n = true) el /\
   (forall lim, c_max cs = Some lim -> forall e, count_node_ent e el <= lim) /\
-  min_pool cs <= len (role_pool p ents vents epoch rt cs cnodes).
+  min_pool cs <= len (role_pool p ents vents epoch rt src cs cnodes).
 
 Definition committee_ok (fv261 : bool) (p : params) (ents : list entity) (vents : list N) (epoch : N)
-  (rt : runtime) (cnodes : list node) (ms : committee) : Prop :=
-  r_suspended rt = false /\ (fv261 = true -> r_compute rt = true) /\ 1 <= r_gsize rt /\
+  (rt : runtime) (cnodes : list node) (blocked : bool) (sw sb : shuffle_src) (ms : committee) : Prop :=
+  r_suspended rt = false /\ (fv261 = true -> r_compute rt = true) /\ blocked = false /\
+  1 <= r_gsize rt /\
   exists w b,
     ms = map (fun n => (ROLE_WORKER, n_id n)) w ++ map (fun n => (ROLE_BACKUP, n_id n)) b /\
-    role_ok p ents vents epoch rt (r_cw rt) (r_gsize rt) cnodes w /\
+    role_ok p ents vents epoch rt sw (r_cw rt) (r_gsize rt) cnodes w /\
     (if r_bsize rt =? 0 then b = []
-     else role_ok p ents vents epoch rt (r_cb rt) (r_bsize rt) cnodes b).
+     else role_ok p ents vents epoch rt sb (r_cb rt) (r_bsize rt) cnodes b).
+
+(* boolean checker for a committee *)
+Definition find_node (id : N) (l : list node) : option node := find (fun n => n_id n =? id) l.
+Fixpoint lookup_all (ids : list N) (l : list node) : option (list node) :=
+  match ids with
+  | [] => Some []
+  | id :: r =>
+      match find_node id l, lookup_all r l with
+      | Some n, Some ns => Some (n :: ns)
+      | _, _ => None
+      end
+  end.
+Definition role_ok_b (p : params) (ents : list entity) (vents : list N) (epoch : N) (rt : runtime)
+  (src : shuffle_src) (cs : constr) (wanted : N) (cnodes : list node) (el : list node) : bool :=
+  (len el =? wanted) &&
+  forallb (role_eligible p ents vents epoch rt (src_haspi src) cs) el &&
+  match c_max cs with
+  | Some lim => forallb (fun n => count_node_ent (n_ent n) el <=? lim) el
+  | None => true
+  end &&
+  (min_pool cs <=? len (role_pool p ents vents epoch rt src cs cnodes)).
+Definition committee_ok_b (fv261 : bool) (p : params) (ents : list entity) (vents : list N) (epoch : N)
+  (rt : runtime) (cnodes : list node) (blocked : bool) (sw sb : shuffle_src) (ms : committee) : bool :=
+  negb (r_suspended rt) && (negb fv261 || r_compute rt) && negb blocked && (1 <=? r_gsize rt) &&
+  match lookup_all (map snd (filter (fun m => fst m =? ROLE_WORKER) ms)) cnodes,
+        lookup_all (map snd (filter (fun m => fst m =? ROLE_BACKUP) ms)) cnodes with
+  | Some w, Some b =>
+      list_eqb pair_eqb ms (map (fun n => (ROLE_WORKER, n_id n)) w ++ map (fun n => (ROLE_BACKUP, n_id n)) b) &&
+      role_ok_b p ents vents epoch rt sw (r_cw rt) (r_gsize rt) cnodes w &&
+      (if r_bsize rt =? 0 then len b =? 0
+       else role_ok_b p ents vents epoch rt sb (r_cb rt) (r_bsize rt) cnodes b)
+  | _, _ => false
+  end.
+
+(* all committees of one epoch, runtime by runtime; "no committee" is always acceptable *)
+Fixpoint comms_ok (fv261 : bool) (p : params) (ents : list entity) (vents : list N) (epoch : N)
+  (cnodes : list node) (blocked : bool) (rts : list runtime) (srcs : list (shuffle_src * shuffle_src))
+  (outs : list (N * option committee)) : Prop :=
+  match rts, outs with
+  | [], [] => True
+  | rt :: r, (id, oc) :: o =>
+      let pc := match srcs with pc :: _ => pc | [] => (ByTable [], ByTable []) end in
+      r_id rt = id /\
+      match oc with
+      | None => True
+      | Some ms => committee_ok fv261 p ents vents epoch rt cnodes blocked (fst pc) (snd pc) ms
+      end /\
+      comms_ok fv261 p ents vents epoch cnodes blocked r (tl srcs) o
+  | _, _ => False
+  end.
+Fixpoint comms_ok_b (fv261 : bool) (p : params) (ents : list entity) (vents : list N) (epoch : N)
+  (cnodes : list node) (blocked : bool) (rts : list runtime) (srcs : list (shuffle_src * shuffle_src))
+  (outs : list (N * option committee)) : bool :=
+  match rts, outs with
+  | [], [] => true
+  | rt :: r, (id, oc) :: o =>
+      let pc := match srcs with pc :: _ => pc | [] => (ByTable [], ByTable []) end in
+      (r_id rt =? id) &&
+      match oc with
+      | None => true
+      | Some ms => committee_ok_b fv261 p ents vents epoch rt cnodes blocked (fst pc) (snd pc) ms
+      end &&
+      comms_ok_b fv261 p ents vents epoch cnodes blocked r (tl srcs) o
+  | _, _ => false
+  end.
+
+(* the implementation's output for one epoch is acceptable: the validator set
+   passes the checker, the emitted updates turn the engine's set into it, and
+   every committee passes the committee checker (validator-set constraint
+   evaluated against the entities of the implementation's validator set) *)
+Definition pmap_eqb (a b : pmap) : bool := list_eqb pair_eqb (sort_by fst a) (sort_by fst b).
+(* the extra eligibility condition of the validator shuffle in use *)
+Definition val_extra (i : epoch_in) : node -> bool :=
+  match i_vrf i with
+  | None => no_extra
+  | Some v =>
+      let beta := tbl_of (v_val v) in
+      let cands := vcands (i_params i) (sort_by e_addr (i_ents i)) (i_epoch i) (sort_by n_id (i_nodes i)) in
+      if len (filter (has_pi beta) cands) <? p_min (i_params i) then no_extra else has_pi beta
+  end.
+Definition impl_ok_b (i : epoch_in) (o : epoch_out) : bool :=
+  match o with
+  | EErr _ => true
+  | ESkip => true
+  | EOk vals ups comms =>
+      let ents := sort_by e_addr (i_ents i) in
+      election_ok_b (i_params i) ents (i_epoch i) (i_nodes i) (val_extra i) vals &&
+      pmap_eqb (apply_updates (i_current i) ups) (powers_of vals) &&
+      comms_ok_b (i_fv261 i) (i_params i) ents (map ent_of vals) (i_epoch i)
+        (committee_nodes i (sort_by n_id (i_nodes i))) (vrf_blocked i) (i_rts i) (committee_srcs i) comms
+  end.
